@@ -31,7 +31,9 @@ META = {
 HELPERS = r"""
 :- use_module(library(lists)).
 :- use_module(library(iso_ext)).
+:- dynamic(skip/1).
 
+% c24(+Xs, -R): the battery on the nodes Xs = [X1..XN]. Operations named by skip/1 facts are not executed (result x).
 c24(Xs, [O1, O2, Cp, O3, Un, O4]) :-
     obs(fwd, Xs, O1), obs(rev, Xs, O2),
     copies(Xs, Xs, Cp), obs(fwd, Xs, O3),
@@ -40,13 +42,14 @@ c24(Xs, [O1, O2, Cp, O3, Un, O4]) :-
 obs(fwd, Xs, [U, P]) :- unary(Xs, Xs, U), pairs(Xs, P).
 obs(rev, Xs, [U, P]) :- pairs(Xs, P), reverse(Xs, Rs), unary(Rs, Xs, U0), reverse(U0, U).
 
-tf(G, R) :- ( call(G) -> R = 1 ; R = 0 ).
+tf(Op, G, R) :- ( skip(Op) -> R = x ; call(G) -> R = 1 ; R = 0 ).
 
 unary([], _, []).
 unary([X|T], Xs, [[A, G, Ids]|Us]) :-
-    tf(acyclic_term(X), A), tf(ground(X), G), term_variables(X, Vs), ids(Vs, Xs, Ids),
+    tf(acyclic, acyclic_term(X), A), tf(ground, ground(X), G), tvs(X, Xs, Ids),
     unary(T, Xs, Us).
 
+tvs(X, Xs, Ids) :- ( skip(term_variables) -> Ids = x ; term_variables(X, Vs), ids(Vs, Xs, Ids) ).
 ids([], _, []).
 ids([V|Vs], Xs, [I|Is]) :- ( var(V) -> idx(Xs, V, 1, I) ; I = -1 ), ids(Vs, Xs, Is).
 idx([], _, _, 0).
@@ -56,14 +59,17 @@ pairs([], []).
 pairs([X|T], P) :- prs(T, X, P, P1), pairs(T, P1).
 prs([], _, P, P).
 prs([Y|T], X, [[E, C1, C2]|P0], P) :-
-    tf(X == Y, E), compare(C1, X, Y), compare(C2, Y, X), prs(T, X, P0, P).
+    tf(eq, X == Y, E),
+    ( skip(compare) -> C1 = x, C2 = x ; compare(C1, X, Y), compare(C2, Y, X) ),
+    prs(T, X, P0, P).
 
 copies([], _, []).
-copies([X|T], Xs, [C|Cs]) :- copy1(X, Xs, C), copies(T, Xs, Cs).
+copies([X|T], Xs, [C|Cs]) :- ( skip(copy_term) -> C = x ; copy1(X, Xs, C) ), copies(T, Xs, Cs).
+% the probes of the copy use only term_variables/2, =/2 and var/1, besides the operations under test
 copy1(X, Xs, [A, G, NV, Fresh, Var]) :-
-    copy_term(X, C), tf(acyclic_term(C), A), tf(ground(C), G),
+    copy_term(X, C), tf(acyclic, acyclic_term(C), A), tf(ground, ground(C), G),
     term_variables(C, CVs), length(CVs, NV), ids(CVs, Xs, Ids),
-    tf(allzero(Ids), Fresh), tf(variant_u(X, C), Var).
+    ( allzero(Ids) -> Fresh = 1 ; Fresh = 0 ), ( variant_u(X, C) -> Var = 1 ; Var = 0 ).
 allzero([]).
 allzero([0|T]) :- allzero(T).
 allvar([]).
@@ -79,28 +85,31 @@ unifs([], _, []).
 unifs([X|T], Xs, U) :- uns(T, X, Xs, U, U1), unifs(T, Xs, U1).
 uns([], _, _, U, U).
 uns([Y|T], X, Xs, [R|U0], U) :-
-    findall([E, A, G], ( X = Y, post(Xs, E, A, G) ), L),
-    ( L = [R0] -> R = R0 ; L = [] -> R = 0 ; R = -1 ),
+    (   skip(unify) -> R = x
+    ;   findall([E, A, G], ( X = Y, post(Xs, E, A, G) ), L),
+        ( L = [R0] -> R = R0 ; L = [] -> R = 0 ; R = -1 )
+    ),
     uns(T, X, Xs, U0, U).
 post(Xs, E, A, G) :- eqs(Xs, E), acs(Xs, A), grs(Xs, G).
 eqs([], []).
 eqs([X|T], E) :- eq1(T, X, E, E1), eqs(T, E1).
 eq1([], _, E, E).
-eq1([Y|T], X, [B|E0], E) :- tf(X == Y, B), eq1(T, X, E0, E).
+eq1([Y|T], X, [B|E0], E) :- tf(eq, X == Y, B), eq1(T, X, E0, E).
 acs([], []).
-acs([X|T], [A|As]) :- tf(acyclic_term(X), A), acs(T, As).
+acs([X|T], [A|As]) :- tf(acyclic, acyclic_term(X), A), acs(T, As).
 grs([], []).
-grs([X|T], [A|As]) :- tf(ground(X), A), grs(T, As).
+grs([X|T], [A|As]) :- tf(ground, ground(X), A), grs(T, As).
 
-% single operations, used to name the operation that hangs or crashes
-c24op(acyclic, I, _, Xs, R) :- nth1(I, Xs, X), tf(acyclic_term(X), R).
-c24op(ground, I, _, Xs, R) :- nth1(I, Xs, X), tf(ground(X), R).
-c24op(term_variables, I, _, Xs, R) :- nth1(I, Xs, X), term_variables(X, Vs), ids(Vs, Xs, R).
+% single operations on a freshly built graph, used to name an operation that hangs or crashes by itself
+c24op(acyclic, I, _, Xs, R) :- nth1(I, Xs, X), tf(acyclic, acyclic_term(X), R).
+c24op(ground, I, _, Xs, R) :- nth1(I, Xs, X), tf(ground, ground(X), R).
+c24op(term_variables, I, _, Xs, R) :- nth1(I, Xs, X), tvs(X, Xs, R).
 c24op(copy_term, I, _, Xs, R) :- nth1(I, Xs, X), copy1(X, Xs, R).
-c24op(eq, I, J, Xs, R) :- nth1(I, Xs, X), nth1(J, Xs, Y), tf(X == Y, R).
+c24op(eq, I, J, Xs, R) :- nth1(I, Xs, X), nth1(J, Xs, Y), tf(eq, X == Y, R).
 c24op(compare, I, J, Xs, R) :- nth1(I, Xs, X), nth1(J, Xs, Y), compare(R, X, Y).
 c24op(unify, I, J, Xs, R) :- nth1(I, Xs, X), nth1(J, Xs, Y), uns([Y], X, Xs, [R], []).
 """
+OPS = ["acyclic", "ground", "term_variables", "eq", "compare", "copy_term", "unify"]
 
 
 def equations(g, order):
@@ -132,10 +141,11 @@ def xs(n):
     return "[" + ",".join("X%d" % i for i in range(1, n + 1)) + "]"
 
 
-def query(g, order):
+def query(g, order, skip=None):
     n = len(g)
     goals = equations(g, order) + ["c24(%s, R0)" % xs(n)]
-    return "findall(R0, (%s), Rs)." % ", ".join(goals)
+    pre = "retractall(skip(_)), " + ("assertz(skip(%s)), " % skip if skip else "")
+    return pre + "findall(R0, (%s), Rs)." % ", ".join(goals)
 
 
 def pyval(t):
@@ -155,49 +165,48 @@ def pairs(n):
     return [(i, j) for i in range(1, n + 1) for j in range(i + 1, n + 1)]
 
 
-def expected_obs(v, vo_entry):
-    """expected [U, P] of one observation round, with the tv order flag"""
-    U = [[int(u["ac"]), int(u["gr"]), list(u["tv"]), bool(u["ord"])] for u in v["un"]]
-    P = [[int(e), c[0], c[1]] for e, c in zip(v["eq"], vo_entry["c"])]
-    return U, P
-
-
 def diff_obs(v, vo_entry, got, rnd):
-    """compare one observation round with the specification; returns list of (op, message)"""
+    """compare one observation round [U, P] with the specification; 'x' = operation not executed.
+    Returns list of (op, message)."""
     out = []
     n = v["n"]
+    pr = pairs(n)
     try:
         gU, gP = got
+        assert len(gU) == n and len(gP) == len(pr)
     except Exception:
-        return [("obs", "%s: malformed observation %r" % (rnd, got))]
-    eU, eP = expected_obs(v, vo_entry)
-    if len(gU) != n or len(gP) != len(eP):
-        return [("obs", "%s: malformed observation %r" % (rnd, got))]
+        return [("battery", "%s: malformed observation %r" % (rnd, got))]
     for i in range(n):
-        ea, eg, etv, eord = eU[i]
+        u = v["un"][i]
+        ea, eg, etv, eord = int(u["ac"]), int(u["gr"]), list(u["tv"]), bool(u["ord"])
         ga, gg, gtv = gU[i]
-        if ga != ea:
+        if ga != ea and ga != "x":
             out.append(("acyclic_term", "%s: acyclic_term(X%d) expected %d got %r" % (rnd, i + 1, ea, ga)))
-        if gg != eg:
+        if gg != eg and gg != "x":
             out.append(("ground", "%s: ground(X%d) expected %d got %r" % (rnd, i + 1, eg, gg)))
-        ok = (gtv == etv) if eord else (sorted(gtv) == sorted(etv) and len(set(gtv)) == len(gtv))
-        if not ok:
-            out.append(("term_variables", "%s: term_variables(X%d) expected %s%r got %r" % (
-                rnd, i + 1, "" if eord else "(any order) ", etv, gtv)))
-    for k, (i, j) in enumerate(pairs(n)):
-        ee, e1, e2 = eP[k]
+        if gtv != "x":
+            ok = (gtv == etv) if eord else (sorted(gtv) == sorted(etv) and len(set(gtv)) == len(gtv))
+            if not ok:
+                out.append(("term_variables", "%s: term_variables(X%d) expected %s%r got %r" % (
+                    rnd, i + 1, "" if eord else "(any order) ", etv, gtv)))
+    for k, (i, j) in enumerate(pr):
+        ee = int(v["eq"][k])
         ge, g1, g2 = gP[k]
-        if ge != ee:
+        if ge != ee and ge != "x":
             out.append(("==", "%s: X%d == X%d expected %d got %r" % (rnd, i, j, ee, ge)))
-        for (a, b, e, g_) in ((i, j, e1, g1), (j, i, e2, g2)):
-            good = (g_ in ("<", ">")) if e == "?" else (g_ == e)
-            if not good:
-                out.append(("compare", "%s: compare(O,X%d,X%d) expected %s got %r" % (rnd, a, b, e, g_)))
+        if vo_entry is not None:
+            e1, e2 = vo_entry["c"][k]
+            for (a, b, e, g_) in ((i, j, e1, g1), (j, i, e2, g2)):
+                good = (g_ in ("<", ">")) if e == "?" else (g_ == e)
+                if not good and g_ != "x":
+                    out.append(("compare", "%s: compare(O,X%d,X%d) expected %s got %r" % (
+                        rnd, a, b, "< or > (no limit)" if e == "?" else e, g_)))
     return out
 
 
 def var_order(v, o1):
-    """the total order of the variable nodes observed in this run (list of names, increasing) or None"""
+    """the total order of the variable nodes observed in this run (list of names, increasing), None if the
+    observed relation is not a strict total order, 'x' if compare/3 was not executed"""
     names = sorted(set(x for x in v["vn"] if x))
     if len(names) <= 1:
         return names
@@ -208,6 +217,8 @@ def var_order(v, o1):
         for b in names:
             if a < b:
                 c = P[pr.index((a, b))][1]
+                if c == "x":
+                    return "x"
                 if c not in ("<", ">"):
                     return None
                 less[(a, b)] = (c == "<")
@@ -226,33 +237,46 @@ def check_case(v, res):
     n = v["n"]
     try:
         O1, O2, Cp, O3, Un, O4 = res
+        vo = var_order(v, O1)
     except Exception:
-        return [("result", "malformed result %r" % (res,))]
-    vo = var_order(v, O1)
+        return [("battery", "malformed result %r" % (res,))]
     if vo is None:
         return [("compare", "the observed order of the variables %r is not a strict total order: %r" % (
             sorted(set(x for x in v["vn"] if x)), O1[1]))]
-    ent = [e for e in v["cmp"] if list(e["vo"]) == list(vo)]
-    if len(ent) != 1:
-        raise common.ToolError("no compare table for variable order %r in %r" % (vo, v["cmp"]))
-    ent = ent[0]
+    if vo == "x":
+        ent = None
+    else:
+        ent = [e for e in v["cmp"] if list(e["vo"]) == list(vo)]
+        if len(ent) != 1:
+            raise common.ToolError("no compare table for variable order %r in %r" % (vo, v["cmp"]))
+        ent = ent[0]
     out += diff_obs(v, ent, O1, "first round")
     for name, O in (("second round (after every inspection ran once)", O2), ("after copy_term", O3),
                     ("after the unifications were undone", O4)):
-        d = diff_obs(v, ent, O, name)
-        if d and not out:
-            out += [(op, "CHANGED " + m) for op, m in d]
+        if not out:
+            out += [(op, "CHANGED " + m) for op, m in diff_obs(v, ent, O, name)]
     for i in range(n):
         e = v["cp"][i]
         exp = [int(e["ac"]), int(e["gr"]), e["nv"], 1, 1]
-        if Cp[i] != exp:
-            out.append(("copy_term", "copy_term(X%d,C): expected [acyclic,ground,nvars,fresh,variant]=%r got %r" % (i + 1, exp, Cp[i])))
+        got = Cp[i]
+        if got != "x" and not (isinstance(got, list) and len(got) == 5 and all(g == x or g == "x" for g, x in zip(got, exp))):
+            out.append(("copy_term", "copy_term(X%d,C): expected [acyclic,ground,nvars,fresh,variant]=%r got %r" % (i + 1, exp, got)))
     for k, (i, j) in enumerate(pairs(n)):
         e = v["un2"][k]
-        exp = [[int(b) for b in e["eq"]], [int(b) for b in e["ac"]], [int(b) for b in e["gr"]]] if e["ok"] else 0
-        if Un[k] != exp:
+        got = Un[k]
+        if got == "x":
+            continue
+        if e["ok"]:
+            exp = [[int(b) for b in e["eq"]], [int(b) for b in e["ac"]], [int(b) for b in e["gr"]]]
+            good = (isinstance(got, list) and len(got) == 3 and
+                    all(isinstance(gl, list) and len(gl) == len(el) and all(g == x or g == "x" for g, x in zip(gl, el))
+                        for gl, el in zip(got, exp)))
+        else:
+            exp = 0
+            good = (got == 0)
+        if not good:
             out.append(("unify", "X%d = X%d: expected %s got %r" % (
-                i, j, ("success with [==matrix, acyclic, ground]=%r" % (exp,)) if e["ok"] else "failure", Un[k])))
+                i, j, ("success, then [== matrix, acyclic, ground]=%r" % (exp,)) if e["ok"] else "failure", got)))
     return out
 
 
@@ -272,12 +296,60 @@ def orders_for(n, tier, rnd):
     return [base, base[::-1], rnd.choice(perms[1:-1])]
 
 
+def execute(cases, skip=None, group=8, workers=8):
+    """run the battery of every case (v, order); returns list of harness results (query entry or {'crash':..})"""
+    jobs = []
+    for bi in range(0, len(cases), group):
+        steps = [{"consult": HELPERS}]
+        for (v, order) in cases[bi:bi + group]:
+            steps.append({"consult": HELPERS})      # a panic or an interrupt rebuilds the Machine: load the helpers again
+            steps.append({"q": query(v["g"], order, skip), "max": 2, "tmo_ms": 5000})
+        jobs.append({"id": bi, "steps": steps[1:], "timeout": 60 + 8 * group, "fresh": True})
+    results = run_jobs(jobs, workers=workers, job_timeout=120)
+    out = [None] * len(cases)
+    singles = []
+    for job in jobs:
+        bi = job["id"]
+        r = results.get(bi, {"crash": "missing"})
+        k = len(cases[bi:bi + group])
+        if "crash" in r:
+            singles += list(range(bi, bi + k))
+        else:
+            for j in range(k):
+                out[bi + j] = r["res"][2 * j + 1]
+    if singles:
+        sj = [{"id": ci, "fresh": True, "timeout": 30,
+               "steps": [{"consult": HELPERS}, {"q": query(cases[ci][0]["g"], cases[ci][1], skip), "max": 2, "tmo_ms": 5000}]}
+              for ci in singles]
+        rs = run_jobs(sj, workers=workers, job_timeout=30)
+        for ci in singles:
+            r = rs.get(ci, {"crash": "missing"})
+            out[ci] = r if "crash" in r else r["res"][1]
+    return out
+
+
+def failures(v, r):
+    """list of (op, message) for one harness result of the battery query"""
+    if "crash" in r:
+        return [("battery", "the process running the battery %s (abort, or a loop that the interrupt cannot end)" % r["crash"])]
+    if r.get("tmo"):
+        return [("battery", "the battery does not terminate (interrupted after 5000 ms; normal time: milliseconds)")]
+    if "panic" in r:
+        return [("battery", "panic " + " ".join(r["panic"].split()))]
+    try:
+        val = pyval(r["a"][0]["b"]["Rs"])
+        if len(val) != 1:
+            raise ValueError("findall returned %d results" % len(val))
+    except Exception:
+        return [("battery", "unexpected answer %s" % str(r)[:200])]
+    return check_case(v, val[0])
+
+
 def locate(v, order, tmo_ms=5000):
-    """re-run one case operation by operation (fresh machine) to name the operation that hangs / crashes"""
+    """run every single operation on a freshly built graph to name an operation that fails by itself"""
     n = v["n"]
-    ops = [(o, i, 0) for o in ("acyclic", "ground", "term_variables") for i in range(1, n + 1)]
+    ops = [(o, i, 0) for o in ("acyclic", "ground", "term_variables", "copy_term") for i in range(1, n + 1)]
     ops += [(o, i, j) for o in ("eq", "compare") for i in range(1, n + 1) for j in range(1, n + 1) if i != j]
-    ops += [("copy_term", i, 0) for i in range(1, n + 1)]
     ops += [("unify", i, j) for (i, j) in pairs(n)]
     jobs = []
     for k, (o, i, j) in enumerate(ops):
@@ -290,14 +362,54 @@ def locate(v, order, tmo_ms=5000):
         r = rs.get(k, {"crash": "missing"})
         name = "%s(X%d%s)" % (o, i, ",X%d" % j if j else "")
         if "crash" in r:
-            bad.append((o, "%s does not return (%s)" % (name, r["crash"])))
+            bad.append((o, "%s alone does not return (%s)" % (name, r["crash"])))
         else:
             x = r["res"][1]
             if x.get("tmo"):
-                bad.append((o, "%s does not terminate (interrupted after %d ms)" % (name, tmo_ms)))
+                bad.append((o, "%s alone does not terminate (interrupted after %d ms)" % (name, tmo_ms)))
             elif "panic" in x:
-                bad.append((o, "%s panics: %s" % (name, x["panic"])))
+                bad.append((o, "%s alone panics: %s" % (name, " ".join(x["panic"].split()))))
     return bad
+
+
+OPNAME = {"acyclic": "acyclic_term", "eq": "=="}
+
+
+def attribute(cases, failing, fails0):
+    """For the failing cases (indices) decide by ablation which operation is responsible: the battery is run again
+    without operation K; if then every remaining observation agrees with the specification, K is the operation whose
+    execution makes the others (or itself) go wrong. Returns dict index -> (K or None, failures to report)."""
+    res = {}
+    todo = list(failing)
+    for K in OPS:
+        if not todo:
+            break
+        sub = [cases[ci] for ci in todo]
+        rs = execute(sub, skip=K)
+        rest = []
+        for ci, r in zip(todo, rs):
+            f = failures(cases[ci][0], r)
+            if not f:
+                res[ci] = (K, fails0[ci])
+            else:
+                rest.append(ci)
+        todo = rest
+    for ci in todo:
+        res[ci] = (None, fails0[ci])
+    return res
+
+
+def signatures(v, order, culprit, fl):
+    gt = graph_text(v["g"], order)
+    has_s = any(nd["k"] == "s" for nd in v["g"])
+    out = []
+    for op, m in fl[:3]:
+        if culprit is not None:
+            out.append("after %s%s: %s: %s | %s" % (OPNAME.get(culprit, culprit), " on a graph with a partial string" if has_s else "",
+                                                  op, m, gt))
+        else:
+            out.append("%s: %s | %s" % (op, m, gt))
+    return out
 
 
 def run(tier):
@@ -305,10 +417,10 @@ def run(tier):
     rnd = random.Random(common.seed())
     rep.rule = ("quick: every term graph with 1..3 nodes over the node shapes {variable, chain Xi=Xj, a, b, f(Xj), g(Xj,Xk), "
                 "'.'(Xj,Xk), \"ab\"||Xj} up to isomorphism, each built in 2 equation orders; thorough: every labelled graph with "
-                "1..3 nodes in all equation orders plus a stride sample of the 4-node graphs; per graph the battery covers every "
-                "node and every pair of nodes. distinct = (node kinds multiset, cyclic?, has variables?, operation)")
-    res, vecs = generate("MC_C24", "MC_C24_%s.cfg" % tier, workers=8 if tier == "quick" else 12, timeout=5400,
-                         key=lambda v: (v["n"], v["code"]))
+                "1..3 nodes in all equation orders plus a stride sample of the 4-node graphs in 3 orders; per graph the battery "
+                "covers every node and every pair of nodes. distinct = (node kinds multiset, cyclic?, has variables?, operation)")
+    res, vecs = generate("MC_C24", "MC_C24_%s.cfg" % tier, workers=8 if tier == "quick" else 12, timeout=7200,
+                         key=lambda v: "%d-%09d" % (v["n"], v["code"]))
     rep.add_tlc(res)
     if not vecs:
         raise common.ToolError("no vectors generated")
@@ -316,69 +428,32 @@ def run(tier):
     for v in vecs:
         for order in orders_for(v["n"], tier, rnd):
             cases.append((v, order))
-    B = 60
-    jobs = []
-    for bi in range(0, len(cases), B):
-        steps = [{"consult": HELPERS}]
-        for (v, order) in cases[bi:bi + B]:
-            steps.append({"q": query(v["g"], order), "max": 2, "tmo_ms": 5000})
-        jobs.append({"id": bi, "steps": steps, "timeout": 240, "fresh": True})
-    results = run_jobs(jobs, workers=8, job_timeout=240)
-
-    def judge(v, order, r):
-        """r: harness result of the case query (or {'crash':..})"""
+    results = execute(cases)
+    fails0 = {}
+    for ci, ((v, order), r) in enumerate(zip(cases, results)):
         kinds = tuple(sorted(nd["k"] for nd in v["g"]))
         cyc = any(not u["ac"] for u in v["un"])
         hasv = any(v["vn"])
         for op in ("acyclic_term", "ground", "term_variables", "==", "compare", "copy_term", "unify"):
             rep.case((kinds, cyc, hasv, op))
-        gt = graph_text(v["g"], order)
-        det = {"vector": v, "order": order, "query": query(v["g"], order)}
-        if "crash" in r or r.get("tmo") or "panic" in r:
-            why = r.get("crash") or ("timeout" if r.get("tmo") else "panic " + r.get("panic", ""))
-            bad = locate(v, order)
-            if not bad:
-                bad = [("battery", "the whole battery: %s (no single operation reproduces it)" % why)]
-            for op, m in bad[:3]:
-                rep.violation("%s: %s | %s" % (op, m, gt), dict(det, why=why))
-            return
-        try:
-            a = r["a"]
-            val = pyval(a[0]["b"]["Rs"])
-            if len(val) != 1:
-                raise ValueError("findall returned %d results" % len(val))
-            val = val[0]
-        except Exception as e:  # noqa
-            rep.violation("battery: unexpected answer %s | %s" % (str(r)[:200], gt), dict(det, err=str(e)))
-            return
-        for op, m in check_case(v, val)[:4]:
-            rep.violation("%s: %s | %s" % (op, m, gt), dict(det, got=val))
-
-    singles = []
-    for job in jobs:
-        bi = job["id"]
-        batch = cases[bi:bi + B]
-        r = results.get(bi, {"crash": "missing"})
-        if "crash" in r:
-            singles += batch
-            continue
-        rs = r["res"][1:]
-        poisoned = False
-        for (v, order), x in zip(batch, rs):
-            if poisoned:
-                singles.append((v, order))
-                continue
-            judge(v, order, x)
-            if "panic" in x or x.get("tmo"):
-                poisoned = True     # the Machine was rebuilt: helpers are gone
-    if singles:
-        sj = [{"id": k, "fresh": True, "timeout": 30,
-               "steps": [{"consult": HELPERS}, {"q": query(v["g"], order), "max": 2, "tmo_ms": 5000}]}
-              for k, (v, order) in enumerate(singles)]
-        rs = run_jobs(sj, workers=8, job_timeout=30)
-        for k, (v, order) in enumerate(singles):
-            r = rs.get(k, {"crash": "missing"})
-            judge(v, order, r if "crash" in r else r["res"][1])
+        f = failures(v, r)
+        if f:
+            fails0[ci] = f
+    if fails0:
+        att = attribute(cases, sorted(fails0), fails0)
+        budget = 40          # single-operation localisation of crashes is expensive: first few only
+        for ci in sorted(att):
+            culprit, fl = att[ci]
+            v, order = cases[ci]
+            if culprit is None and fl[0][0] == "battery" and budget > 0:
+                budget -= 1
+                alone = locate(v, order)
+                if alone:
+                    fl = alone
+            det = {"vector": v, "order": order, "query": query(v["g"], order), "culprit": culprit,
+                   "failures": [m for _, m in fl[:6]]}
+            for sg in signatures(v, order, culprit, fl):
+                rep.violation(sg, det)
     step = max(1, len(vecs) // 5)
     for v in vecs[::step]:
         rep.sample({"graph": graph_text(v["g"]), "acyclic": [u["ac"] for u in v["un"]], "eq": v["eq"],
@@ -387,7 +462,9 @@ def run(tier):
     rep.exhaustive = True
     rep.extra["graphs"] = len(vecs)
     rep.extra["cyclic_graphs"] = sum(1 for v in vecs if any(not u["ac"] for u in v["un"]))
-    rep.extra["compare_undefined_pairs"] = sum(1 for v in vecs for e in v["cmp"] for c in e["c"] if c[0] == "?")
+    rep.extra["graphs_with_partial_strings"] = sum(1 for v in vecs if any(nd["k"] == "s" for nd in v["g"]))
+    rep.extra["compare_pairs_without_limit"] = sum(1 for v in vecs for c in v["cmp"][0]["c"] if c[0] == "?")
+    rep.extra["cases_failing"] = len(fails0)
     rep.assumptions = ["TLC", "spec/TermGraph.tla (infinite-tree reading)", "Prolog observation helpers",
                        "equation-set rendering", "watchdog interrupt of the harness (tmo_ms)"]
     return rep.finish()
@@ -399,16 +476,13 @@ def replay(path):
     v, order = det["vector"], det["order"]
     print("graph:", graph_text(v["g"], order))
     print("query:", query(v["g"], order))
-    r = run_jobs([{"id": 0, "fresh": True, "timeout": 30, "steps": [
-        {"consult": HELPERS}, {"q": query(v["g"], order), "max": 2, "tmo_ms": 5000}]}], workers=1, job_timeout=30)[0]
-    if "crash" in r or r["res"][1].get("tmo") or "panic" in r["res"][1]:
-        print("battery:", str(r)[:300])
-        for op, m in locate(v, order):
-            print("  ", op, m)
-        return 1
-    val = pyval(r["res"][1]["a"][0]["b"]["Rs"])[0]
-    bad = check_case(v, val)
-    for op, m in bad:
+    r = execute([(v, order)], workers=1)[0]
+    fl = failures(v, r)
+    for op, m in fl:
         print("  ", op, m)
-    print("got:", json.dumps(val))
-    return 1 if bad else 0
+    if fl:
+        att = attribute([(v, order)], [0], {0: fl})
+        print("responsible operation (ablation):", att[0][0])
+    if "a" in r:
+        print("got:", json.dumps(pyval(r["a"][0]["b"]["Rs"])))
+    return 1 if fl else 0
